@@ -86,4 +86,9 @@ TEXT = {
   "note": "Trusts the harness layout function (shared with C05) and UTF-8 encoding of strings. Records <= 24 fields / ~1500 bits.",
   "technique": "round-trip + independent-layout differential monitor over generated field lists",
  },
+ "C08": {
+  "level": "Exploration: every dictionary word on every combination of argument classes up to arity 3, and hostile token soups on fresh and long-lived interpreters, are driven through eval / compile / run / step / reverse-step / error formatting / value formatting; each call runs under catch_unwind inside a worker whose exit status the driver watches, in release and overflow-checked builds, recording on and off. The thorough tier repeats a sample under valgrind memcheck and Miri.",
+  "note": "Binary oracle (returned vs did not return). Out-of-memory aborts are classified as immodest allocations and excluded, as the statement does. A clean sanitizer run means 'no report on these executions', not memory safety.",
+  "technique": "process-level trap monitor (catch_unwind + panic hook in the worker, exit status / signal in the parent) over hostile workloads; memcheck and Miri in the thorough tier",
+ },
 }
